@@ -124,6 +124,16 @@ def inherent(ex, ci, sb, meth, args, fn, dest_ty):
                 return Agg('IpAddr', 0, [Cell(Agg('Ipv4Addr', None, [Cell(x) for x in o]))])
             return ex.copyval(d)
     if sb == 'SocketAddr' and meth == 'new': return Agg('SocketAddr', None, [Cell(tup(a0, args[1]))])
+    # ------------------------------------------------------------------ prometheus metrics: write-only sinks
+    if 'prometheus' in c:
+        if meth in ('deref', 'with_label_values', 'start_timer', 'get_metric_with_label_values'): return Opaque('metric', meth)
+        if meth in ('inc', 'inc_by', 'set', 'observe', 'observe_duration', 'dec', 'add', 'sub', 'stop_and_discard'): return unit()
+        if meth == 'stop_and_record': return Opaque('f64', 0)
+    # ------------------------------------------------------------------ tokio::sync::RwLock: uncontended, ready at first poll
+    if 'tokio::sync::RwLock' in c and meth in ('read', 'write'):
+        mtx = ex.deref(a0)
+        ex.log.append(('lock', id(mtx)))
+        return Opaque('stubfuture', Agg('MutexGuard', None, [Cell(Ref(mtx.fields[0]))]))
     # ------------------------------------------------------------------ Arc / Rc / Mutex / RwLock (single-threaded, never poisoned)
     if sb in ('Arc', 'Rc'):
         if meth in ('new', 'pin'): return Agg('Arc', None, [Cell(a0)])
@@ -171,6 +181,8 @@ def inherent(ex, ci, sb, meth, args, fn, dest_ty):
         if meth == 'as_secs': return ex.binop('Shr', d.fields[0].v, Int(SEC_SHIFT, 'u64'))
         if meth == 'is_zero': return seq(ex, d.fields[0].v, Int(0, 'u64'))
         if meth in ('as_millis', 'as_nanos', 'subsec_nanos', 'as_secs_f64'): raise Unsupported('Duration::' + meth + ' in the 2^-20 s time model')
+    # ------------------------------------------------------------------ tracing's `log` fallback (feature unified into the binary's build): no logger installed
+    if 'tracing::log::Level' in c and meth in ('le', 'lt', 'ge', 'gt'): return False
     # ------------------------------------------------------------------ tracing: no subscriber
     if 'tracing' in c or sb in ('DefaultCallsite', 'LevelFilter', 'Event', 'FieldSet', 'Span', 'Metadata', 'Interest', 'Callsite', 'Entered', 'EnteredSpan'):
         if meth in ('__is_enabled', 'is_never'): return meth == 'is_never'
